@@ -830,7 +830,7 @@ func (p *Path) model(extra *Term) (SatResult, []CexVal, string) {
 	for _, in := range p.inputs {
 		cv := CexVal{Kind: in.Kind, Label: in.Label}
 		switch in.Kind {
-		case "choose":
+		case "choose", "sched":
 			cv.Int = fmt.Sprint(in.Conc)
 		case "bytes", "uf":
 			var sb strings.Builder
